@@ -1,7 +1,7 @@
 """Shared static-analysis helpers built on ir.py (repository specific)."""
 import re
 
-from .ir import (classify_asm, asm_callback, asm_lines, const_int, refkey, keyref, Inst)
+from .ir import (classify_asm, asm_callback, asm_lines, const_int, refkey, keyref, Inst, EdgePoint)
 from .frontend import AnalysisBroken
 
 SPIN_LOCK = 'myth_spin_lock_body'
@@ -281,3 +281,206 @@ def describe(fn, ref):
     if ins.op == 'call':
         return '%s(...)' % (ins.callee or 'asm')
     return v or '%s@%s' % (ins.op, ins.loc)
+
+
+# ---------------------------------------------------------------------------
+# lock typestate (P5): forward may/must dataflow of held spin locks
+# ---------------------------------------------------------------------------
+
+class LockAnalysis:
+    """must/may-held lock sets before every instruction of `fn`.
+    Lock identity = structural access path of the pointer argument.
+    trylock acquires on the edge where its result is tested non-zero."""
+
+    def __init__(self, fn, initial=(), lock=(SPIN_LOCK,), trylock=(SPIN_TRYLOCK,), unlock=(SPIN_UNLOCK,)):
+        self.fn = fn
+        self.lock, self.trylock, self.unlock = lock, trylock, unlock
+        self.names = {}
+        self.must_in = {}
+        self.may_in = {}
+        self.double_unlock = []
+        self.relock = []
+        self._edge_acq = {}   # (block, succ) -> set(keys)
+        self._prepare()
+        self._solve(frozenset(initial))
+
+    def key_of(self, ptr):
+        ap = self.fn.ap(ptr)
+        k = ap.key()
+        self.names.setdefault(k, ap.desc())
+        return k
+
+    def _prepare(self):
+        fn = self.fn
+        for c in fn.order:
+            if c.op == 'call' and c.callee in self.trylock:
+                k = self.key_of(c.args[0])
+                for cond, pol in cond_chain(fn, c.id):
+                    for br, t, f in fn.cond_edges(cond):
+                        if t == f:
+                            continue
+                        self._edge_acq.setdefault((br.block.id, t if pol else f), set()).add(k)
+
+    def _transfer(self, ins, must, may, record=False):
+        if ins.op == 'call':
+            if ins.callee in self.lock:
+                k = self.key_of(ins.args[0])
+                if record and k in must:
+                    self.relock.append(ins)
+                must = must | {k}
+                may = may | {k}
+            elif ins.callee in self.unlock:
+                k = self.key_of(ins.args[0])
+                if record and k not in may:
+                    self.double_unlock.append(ins)
+                must = must - {k}
+                may = may - {k}
+        return must, may
+
+    def _solve(self, initial):
+        fn = self.fn
+        TOP = None
+        bin_must = {b.id: TOP for b in fn.blocks}
+        bin_may = {b.id: frozenset() for b in fn.blocks}
+        bin_must[0] = initial
+        bin_may[0] = initial
+        work = [0]
+        visited = set()
+        iters = 0
+        while work and iters < 20000:
+            iters += 1
+            bid = work.pop()
+            b = fn.blocks[bid]
+            must, may = bin_must[bid], bin_may[bid]
+            if must is TOP:
+                continue
+            dead = False
+            for ins in b.insts:
+                if fn.is_noreturn(ins):
+                    dead = True
+                    break
+                must, may = self._transfer(ins, must, may)
+            visited.add(bid)
+            if dead:
+                continue
+            for s in fn.succs(b):
+                acq = self._edge_acq.get((bid, s), set())
+                m2, y2 = must | acq, may | acq
+                old_m, old_y = bin_must[s], bin_may[s]
+                new_m = m2 if old_m is TOP else (old_m & m2)
+                new_y = old_y | y2
+                if new_m != old_m or new_y != old_y or s not in visited:
+                    bin_must[s], bin_may[s] = frozenset(new_m), frozenset(new_y)
+                    if s not in work:
+                        work.append(s)
+        # final pass: per instruction states + diagnostics
+        for b in fn.blocks:
+            must, may = bin_must[b.id], bin_may[b.id]
+            if must is TOP:
+                continue
+            for ins in b.insts:
+                self.must_in[ins.id] = must
+                self.may_in[ins.id] = may
+                if fn.is_noreturn(ins):
+                    break
+                must, may = self._transfer(ins, must, may, record=True)
+
+    def held_must(self, ins, key=None):
+        s = self.must_in.get(ins.id)
+        if s is None:
+            return True if key is not None else frozenset()  # unreachable code
+        return (key in s) if key is not None else s
+
+    def held_may(self, ins):
+        return self.may_in.get(ins.id, frozenset())
+
+    def name(self, k):
+        return self.names.get(k, str(k))
+
+    def keys_matching(self, suffix):
+        return [k for k, n in self.names.items() if n.endswith(suffix)]
+
+
+def ret_cases(fn):
+    """[(value_ref, anchor_inst)] : each way a value can be returned; for phi
+    return values the anchor is the terminator of the incoming block"""
+    out = []
+
+    def expand(val, anchor, depth=0):
+        ins = fn.get(val) if isinstance(val, str) else None
+        if ins is not None and ins.op == 'phi' and depth < 8:
+            for v, b in ins.d['incoming']:
+                expand(v, EdgePoint(fn, b, ins.block.id), depth + 1)
+        elif ins is not None and ins.op in ('zext', 'sext', 'trunc') and depth < 8:
+            expand(ins.ops[0], anchor, depth + 1)
+        elif ins is not None and ins.op == 'select' and depth < 8:
+            expand(ins.ops[1], anchor, depth + 1)
+            expand(ins.ops[2], anchor, depth + 1)
+        else:
+            out.append((val, anchor))
+    for r in fn.exits():
+        if r.ops:
+            expand(r.ops[0], r)
+        else:
+            out.append((None, r))
+    return out
+
+
+def mask_tests(fn, ref, mask):
+    """[(br, set_block, clear_block)]: branches deciding (ref & mask) != 0"""
+    out = []
+    want = fn.sources(ref)
+    for a in fn.order:
+        if a.op != 'and':
+            continue
+        x, y = a.ops
+        for v, m in ((x, y), (y, x)):
+            if isinstance(m, dict) and m.get('c') == mask and fn.sources(v) == want:
+                for cond, pol in cond_chain(fn, a.id):
+                    for br, t, f in fn.cond_edges(cond):
+                        if t != f:
+                            out.append((br, t if pol else f, f if pol else t))
+    # trunc to i1 of the value (mask 1) is also a bit test
+    if mask == 1:
+        for a in fn.order:
+            if a.op == 'trunc' and a.ty == 'i1' and fn.sources(a.ops[0]) == want:
+                for cond, pol in cond_chain(fn, a.id):
+                    for br, t, f in fn.cond_edges(cond):
+                        if t != f:
+                            out.append((br, t if pol else f, f if pol else t))
+    return out
+
+
+def guarded_by_bit(fn, ref, mask, want_set, target):
+    for br, sb, cb in mask_tests(fn, ref, mask):
+        if fn.edge_dominates(br.block.id, sb if want_set else cb, target):
+            return True
+    return False
+
+
+def delta_of(fn, new_ref, exp_ref):
+    """integer d such that new == exp + d syntactically, else None"""
+    ins = fn.get(new_ref) if isinstance(new_ref, str) else None
+    if ins is None:
+        if isinstance(new_ref, dict) and isinstance(exp_ref, dict) and 'c' in new_ref and 'c' in exp_ref:
+            return new_ref['c'] - exp_ref['c']
+        return None
+    if ins.op in ('add', 'sub'):
+        a, b = ins.ops
+        c = const_int(b)
+        if c is not None and fn.sources(a) == fn.sources(exp_ref):
+            return c if ins.op == 'add' else -c
+        c = const_int(a)
+        if ins.op == 'add' and c is not None and fn.sources(b) == fn.sources(exp_ref):
+            return c
+    return None
+
+
+def is_load_of(fn, ref, field, volatile=None):
+    for k in fn.sources(ref):
+        ins = fn.insts.get(k) if not k.startswith('{') else None
+        if ins is None or ins.op != 'load' or fn.field(ins) != field:
+            return False
+        if volatile is not None and ins.volatile != volatile:
+            return False
+    return bool(fn.sources(ref))
